@@ -128,6 +128,7 @@ def skeleton(text):
             toks.append((m.lastgroup, m.group(0), lineno, m.end(), ln))
     # second pass: classify identifiers
     out = []
+    names = {}
     seq = [t for t in toks]
     for i, t in enumerate(seq):
         if len(t) == 2:
@@ -155,7 +156,16 @@ def skeleton(text):
                 r'(compare_exchange|exchange|load|store|fetch_|memory_order|lock|wait|notify|emplace|get|visit|forward|move)', val)
             if is_call or is_member or is_scoped or is_tmpl_call:
                 out.append((val, lineno))
-            # other identifiers (local names, types in declarations) are dropped
+            else:
+                # every other identifier (local variable, parameter, type name) is kept up to
+                # alpha-equivalence: it becomes v<k>, k = order of first appearance in the file.  A
+                # consistent rename changes nothing; using a different variable at one site
+                # (`old_state.state_ex()` for `current_state.state_ex()`, `default_threads` for
+                # `init_cores`) changes the stream.
+                k = names.get(val)
+                if k is None:
+                    k = names[val] = len(names)
+                out.append(('v%d' % k, lineno))
     return out
 
 
